@@ -175,7 +175,15 @@ async def gateway_level(ctx, version: str, fields: tuple) -> None:
 
 def run_case(ctx, case: dict) -> None:
     version = case["version"]
-    schema = schema_for(version)
+    if case["kind"] in ("message", "typed", "line"):
+        for via_context in (False, True):  # both ways of configuring the decoder (the run used one per shard)
+            _run_schema_case(ctx, case, schema_for(version, via_context=via_context))
+    else:
+        arun(gateway_level(ctx, version, tuple(case["fields"])))
+
+
+def _run_schema_case(ctx, case: dict, schema) -> None:
+    version = case["version"]
     if case["kind"] == "message":
         check_message(ctx, schema, version, tuple(case["fields"]))
     elif case["kind"] == "typed":
@@ -188,7 +196,9 @@ def run_case(ctx, case: dict) -> None:
 
 def run_workload(ctx) -> None:
     rng = ctx.rng
-    schemas = {v: schema_for(v) for v in VERSIONS}
+    # odd shards configure their decoders through the schema context instead of set_protocol()
+    schemas = {v: schema_for(v, via_context=bool(ctx.shard_index % 2)) for v in VERSIONS}
+    ctx.obs("decoder-configured-via:" + ("context" if ctx.shard_index % 2 else "set_protocol"))
     payloads = [p for p in gens.PAYLOAD_POOL if spec.payload_ok_for_roundtrip(p)]
     # text the codec / handler modules themselves mention (vf.codedict; text the reference tree does not have first)
     from ..histories import dictionary_payloads
